@@ -1,2 +1,79 @@
-// harnesses for this module (filled in below)
+// Kani harnesses compiled as `crate::solve::multinomial::verif_kani`.
 #![allow(dead_code, unused_imports, clippy::all)]
+use super::*;
+use rand::RngCore;
+use rand_distr::Distribution;
+
+/// A random number generator whose next 64-bit word is a symbolic value.
+struct SymRng {
+    word: u64,
+    calls: u32,
+}
+
+impl RngCore for SymRng {
+    fn next_u32(&mut self) -> u32 {
+        self.calls += 1;
+        (self.word >> 32) as u32
+    }
+    fn next_u64(&mut self) -> u64 {
+        self.calls += 1;
+        self.word
+    }
+    fn fill_bytes(&mut self, dest: &mut [u8]) {
+        self.calls += 1;
+        for b in dest.iter_mut() {
+            *b = self.word as u8;
+        }
+    }
+    fn try_fill_bytes(&mut self, dest: &mut [u8]) -> Result<(), rand::Error> {
+        self.fill_bytes(dest);
+        Ok(())
+    }
+}
+
+/// Inverse-CDF specification for all 2^64 generator words and all weight vectors k/8 (sum 1, 2..4
+/// entries, zeros allowed): with u = (word >> 11) * 2^-53 the sampler returns k iff
+/// c_k < u <= c_{k+1} (u = 0 falls in the first interval); exactly one variate is consumed.
+#[kani::proof]
+#[kani::unwind(6)]
+fn c10_multinomial_inverse_cdf() {
+    let n: usize = kani::any();
+    kani::assume(n >= 2 && n <= 4);
+    let k: [u8; 4] = [kani::any(), kani::any(), kani::any(), kani::any()];
+    kani::assume(k[0] <= 8 && k[1] <= 8 && k[2] <= 8 && k[3] <= 8);
+    let mut tot: u32 = 0;
+    for i in 0..4 {
+        if i >= n {
+            kani::assume(k[i] == 0);
+        }
+        tot += k[i] as u32;
+    }
+    kani::assume(tot == 8);
+    let probs = [k[0] as f64 / 8.0, k[1] as f64 / 8.0, k[2] as f64 / 8.0, k[3] as f64 / 8.0];
+    let word: u64 = kani::any();
+    let mut rng = SymRng { word, calls: 0 };
+    let res = Multinomial::new(&probs[..n]).sample(&mut rng);
+    // integer oracle: u = m / 2^53, c_j = C_j / 8  =>  u > c_j  <=>  m > C_j * 2^50
+    let m = word >> 11;
+    let mut cum: u64 = 0;
+    let mut want = 0usize;
+    for j in 0..3 {
+        if j + 1 < n {
+            cum += k[j] as u64;
+            if m > cum << 50 {
+                want += 1;
+            }
+        }
+    }
+    kani::cover!(n == 4 && want == 3, "last of four outcomes");
+    kani::cover!(n == 3 && want == 1 && k[0] > 0, "middle outcome");
+    kani::cover!(m == (k[0] as u64) << 50 && k[0] > 0 && k[0] < 8, "variate exactly on the first boundary");
+    kani::cover!(k[0] == 0 && want == 1, "zero-weight first outcome skipped");
+    assert!(res < n, "C10 sampler: index out of range");
+    assert!(res == want, "C10 sampler: index is not the cumulative-probability interval containing the variate");
+    assert!(rng.calls == 1, "C10 sampler: must consume exactly one uniform variate");
+}
+
+#[cfg(test)]
+#[path = "/verif/.work/playback/h_multinomial.rs"]
+mod pb;
